@@ -75,7 +75,8 @@ ASSUMPTIONS = [
     "known finding excluded by construction: objects created at the top level of a template that is imported without "
     "context (namespace, cycler, joiner, list) are never modified from its macros or by importers (the cached module "
     "would carry the change into later renders)",
-    "errors are outcomes compared by class: TemplateError, TypeError, ValueError, ArithmeticError, LookupError, AttributeError",
+    "errors are outcomes compared by class: TemplateError, TypeError, ValueError, ArithmeticError, LookupError, AttributeError, "
+    "AssertionError (truncate's argument assertion)",
     "random filter and lipsum are not used; set-valued output is sorted in the template",
     "thread part: chance-driven schedule exploration, sound on every schedule; switches reported are a lower bound "
     "observed at variable-lookup granularity",
@@ -237,7 +238,8 @@ def _allowed():
     if _ALLOWED is None:
         import jinja2
 
-        _ALLOWED = (jinja2.TemplateError, TypeError, ValueError, ArithmeticError, LookupError, AttributeError)
+        # AssertionError: the truncate filter asserts ``length >= len(end)`` (wild fragments reach it)
+        _ALLOWED = (jinja2.TemplateError, TypeError, ValueError, ArithmeticError, LookupError, AttributeError, AssertionError)
     return _ALLOWED
 
 
@@ -562,9 +564,10 @@ def _thread_part(case, sources, steps, expected, th):
 # ---------------------------------------------------------------------------------------
 # generator: data
 
-LISTS = ("L", "L2", "GL", "O.items", "START", "FILL", "DFLT", "T", "Q", "TGL")
+LISTS = ("L", "L2", "GL", "O.items", "START", "FILL", "DFLT")
+SEQS = LISTS + ("T", "Q", "L", "L2")
 DICTS = ("D", "GD", "O.meta", "DDFLT")
-ANYVARS = LISTS + DICTS + ("LL", "S", "DL", "OL", "ST", "N", "W", "I", "O", "UNDEF")
+ANYVARS = LISTS + DICTS + ("T", "Q", "TGL", "LL", "S", "DL", "OL", "ST", "N", "W", "I", "O", "UNDEF")
 VAR_RE = re.compile(r"\b(L|L2|GL|START|FILL|DFLT|T|Q|TGL|D|GD|DDFLT|LL|S|DL|OL|ST|N|O)\b")
 
 
@@ -610,27 +613,27 @@ TYPED = [
     ("container_arg", "{{ LL|sum(start=%(list)s) }}"),
     ("container_arg", "{{ DL|sum(attribute='w', start=%(list)s) }}"),
     ("container_arg", "{{ DL|map(attribute='w')|sum(start=%(list)s) }}"),
-    ("", "{{ %(list)s|sum }}{{ %(list)s|sum(start=I) }}"),
-    ("container_arg", "{{ UNDEF|default(%(any)s) }}{{ %(list)s|default(%(list)s, true) }}"),
-    ("container_arg", "{{ %(list)s|batch(2, %(any)s)|list }}"),
-    ("container_arg", "{{ %(list)s|slice(2, %(any)s)|list }}"),
-    ("container_arg", "{% for row in %(list)s|batch(3, %(list)s) %}{{ row }}{% endfor %}"),
-    ("", "{{ %(list)s|batch(3)|list }}{{ %(list)s|slice(3)|list }}"),
-    ("", "{{ %(list)s|sort }}{{ %(list)s|sort(reverse=true) }}"),
+    ("", "{{ %(seq)s|sum }}{{ %(seq)s|sum(start=I) }}"),
+    ("container_arg", "{{ UNDEF|default(%(any)s) }}{{ %(seq)s|default(%(list)s, true) }}"),
+    ("container_arg", "{{ %(seq)s|batch(2, %(any)s)|list }}{{ %(seq)s|batch(3, %(list)s)|list }}"),
+    ("container_arg", "{{ %(seq)s|slice(2, %(any)s)|list }}{{ %(seq)s|slice(3, %(list)s)|list }}"),
+    ("container_arg", "{% for row in %(seq)s|batch(3, %(list)s) %}{{ row }}{% endfor %}{% for col in %(seq)s|slice(3, %(list)s) %}{{ col }}{% endfor %}"),
+    ("", "{{ %(seq)s|batch(3)|list }}{{ %(seq)s|slice(3)|list }}"),
+    ("", "{{ %(seq)s|sort }}{{ %(seq)s|sort(reverse=true) }}"),
     ("", "{{ DL|sort(attribute='k') }}{{ DL|sort(attribute='v,k', reverse=true)|map(attribute='v')|list }}"),
     ("", "{{ S|sort(case_sensitive=true) }}{{ S|sort }}{{ OL|sort(attribute='v')|map(attribute='k')|list }}"),
-    ("", "{{ %(list)s|map('string')|list }}{{ DL|map(attribute='k')|list }}"),
+    ("", "{{ %(seq)s|map('string')|list }}{{ DL|map(attribute='k')|list }}"),
     ("container_arg", "{{ DL|map(attribute='zz', default=%(any)s)|list }}"),
     ("", "{{ LL|map('sum')|list }}{{ LL|map('first')|list }}{{ LL|map('sort')|list }}{{ LL|map('list')|list }}"),
     ("container_arg", "{{ LL|map('batch', 1, %(any)s)|map('list')|list }}"),
     ("container_arg", "{{ LL|map('sum', start=%(list)s)|list }}"),
     ("", "{{ DL|groupby('k') }}{% for g in DL|groupby('k') %}{{ g.grouper }}:{{ g.list|length }}{% endfor %}"),
     ("container_arg", "{{ DL|groupby('zz', default=%(any)s)|length }}{{ OL|groupby('k')|length }}"),
-    ("", "{{ %(list)s|unique|list }}{{ S|unique(case_sensitive=true)|list }}{{ DL|unique(attribute='k')|list|length }}"),
-    ("", "{{ %(list)s|reverse|list }}{{ W|reverse }}{{ %(list)s|list }}{{ %(dict)s|list }}{{ ST|list|sort }}"),
+    ("", "{{ %(seq)s|unique|list }}{{ S|unique(case_sensitive=true)|list }}{{ DL|unique(attribute='k')|list|length }}"),
+    ("", "{{ %(seq)s|reverse|list }}{{ W|reverse }}{{ %(seq)s|list }}{{ %(dict)s|list }}{{ ST|list|sort }}"),
     ("", "{{ %(dict)s|items|list }}{{ %(dict)s|dictsort }}{{ %(dict)s|dictsort(by='value', reverse=true) }}"),
-    ("", "{{ %(list)s|join(',') }}{{ DL|join('|', attribute='k') }}{{ %(list)s|first }}{{ %(list)s|last }}{{ %(list)s|length }}"),
-    ("", "{{ %(list)s|max }}{{ %(list)s|min }}{{ DL|max(attribute='v') }}{{ %(list)s|select('odd')|list }}{{ %(list)s|reject('odd')|list }}"),
+    ("", "{{ %(seq)s|join(',') }}{{ DL|join('|', attribute='k') }}{{ %(seq)s|first }}{{ %(seq)s|last }}{{ %(seq)s|length }}"),
+    ("", "{{ %(seq)s|max }}{{ %(seq)s|min }}{{ DL|max(attribute='v') }}{{ %(seq)s|select('odd')|list }}{{ %(seq)s|reject('odd')|list }}"),
     ("", "{{ DL|selectattr('v', 'gt', 1)|list|length }}{{ DL|rejectattr('v')|list|length }}{{ OL|selectattr('k', 'eq', 'x')|list }}"),
     ("", "{{ %(list)s|tojson }}{{ %(dict)s|tojson }}{{ %(any)s|pprint }}{{ %(dict)s|xmlattr }}{{ %(dict)s|urlencode }}{{ %(any)s|string }}"),
     ("container_arg", "{{ I in %(list)s }}{{ %(list)s is sameas %(list)s }}{{ %(list)s == %(list)s }}{{ %(list)s is eq(%(list)s) }}"),
@@ -645,18 +648,18 @@ TYPED = [
     ("container_arg", "{%% set rows = %(list)s|batch(2, %(any)s)|list %%}{%% for r in rows %%}{%% do r.append(I) %%}{%% endfor %%}{{ rows }}"),
     ("container_arg", "{%% set rows = %(list)s|slice(2, %(any)s)|list %%}{%% for r in rows %%}{%% do r.insert(0, W) %%}{%% endfor %%}{{ rows }}"),
     ("container_arg", "{%% set g = DL|groupby('k') %%}{%% for k, items in g %%}{%% do items.append(I) %%}{%% endfor %%}{{ g|length }}"),
-    ("", "{%% for x in %(list)s %%}{{ loop.index }}{{ loop.cycle(%(any)s, I) }}{{ loop.changed(x) }}{{ loop.previtem|default('-') }}"
+    ("", "{%% for x in %(seq)s %%}{{ loop.index }}{{ loop.cycle(%(any)s, I) }}{{ loop.changed(x) }}{{ loop.previtem|default('-') }}"
          "{{ loop.nextitem|default('-') }}{%% endfor %%}"),
     ("", "{%% for k, v in %(dict)s|items %%}{{ k }}={{ v }};{%% endfor %%}{%% for k in %(dict)s %%}{{ k }}{%% endfor %%}"),
     ("", "{%% for x in N recursive %%}{%% if x is iterable %%}({{ loop(x) }}){%% else %%}{{ x }}{%% endif %%}{%% endfor %%}"),
-    ("", "{%% for x in %(list)s if x is odd %%}{{ x }}{%% else %%}none{%% endfor %%}{%% for x in %(list)s|reverse %%}{{ x }}{%% endfor %%}"),
+    ("", "{%% for x in %(seq)s if x is odd %%}{{ x }}{%% else %%}none{%% endfor %%}{%% for x in %(seq)s|reverse %%}{{ x }}{%% endfor %%}"),
     ("namespace container_arg", "{%% set ns = namespace(acc=%(list)s, n=0) %%}{%% for x in %(list)s %%}{%% set ns.n = ns.n + 1 %%}"
                                 "{%% set ns.acc = ns.acc + [x] %%}{%% endfor %%}{{ ns.n }}{{ ns.acc }}"),
     ("namespace container_arg", "{%% set ns = namespace(%(dict)s) %%}{%% set ns.z = I %%}{{ ns.z }}{{ ns.a|default('-') }}"),
     ("namespace container_arg", "{%% set ns = namespace(%(dict)s, z=%(list)s) %%}{%% set ns.a = W %%}{{ ns.a }}{{ ns.z }}"),
     ("container_arg", "{%% set c = cycler(%(any)s, %(any)s) %%}{{ c.next() }}{{ c.next() }}{{ c.current }}{%% do c.reset() %%}{{ c.next() }}"),
     ("container_arg", "{%% if %(list)s %%}{%% set c = cycler(*%(same)s) %%}{{ c.next() }}{{ c.next() }}{{ c.next() }}{%% endif %%}"),
-    ("", "{%% set j = joiner(W) %%}{%% for x in %(list)s %%}{{ j() }}{{ x }}{%% endfor %%}{{ j() }}"),
+    ("", "{%% set j = joiner(W) %%}{%% for x in %(seq)s %%}{{ j() }}{{ x }}{%% endfor %%}{{ j() }}"),
     ("", "{%% set x = %(list)s %%}{%% set x = x + [I] %%}{{ x }}{%% set a, b = %(list)s, %(dict)s %%}{{ a }}{{ b }}"),
     ("", "{%% with l = %(list)s, d = %(dict)s %%}{{ l|length }}{{ d|length }}{%% endwith %%}"),
     ("container_arg", "{%% macro m(a, acc=%(list)s) %%}{{ acc + [a] }}{%% endmacro %%}{{ m(1) }}{{ m(2, [0]) }}"),
@@ -690,10 +693,12 @@ LIB_MACROS = [
 ]
 # uses of a library bound to alias %(m)s; %(lib)s = template name
 LIB_USES = [
-    "{{ %(m)s.show(%(any)s) }}", "{{ %(m)s.acc(I) }}{{ %(m)s.acc(W) }}", "{{ %(m)s.cyc(%(list)s) }}", "{{ %(m)s.cnt(%(list)s) }}",
-    "{{ %(m)s.srt(%(list)s) }}", "{{ %(m)s.summ(LL, %(list)s) }}", "{{ %(m)s.jn(%(list)s) }}", "{{ %(m)s.peek() }}",
-    "{{ %(m)s.cfg.a|default('-') }}{{ %(m)s.LS|default('-') }}{{ %(m)s.total|default('-') }}{{ %(m)s.rows|default('-') }}",
-    "{%% set c = (%(m)s.cfg.a|default([]))|list %%}{%% do c.append(9) %%}{{ c }}{{ %(m)s.cfg.a|default('-') }}",
+    "{{ %(m)s.show(%(any)s) if %(m)s.show is defined }}", "{{ %(m)s.acc(I) ~ %(m)s.acc(W) if %(m)s.acc is defined }}",
+    "{{ %(m)s.cyc(%(list)s) if %(m)s.cyc is defined }}", "{{ %(m)s.cnt(%(list)s) if %(m)s.cnt is defined }}",
+    "{{ %(m)s.srt(%(list)s) if %(m)s.srt is defined }}", "{{ %(m)s.summ(LL, %(list)s) if %(m)s.summ is defined }}",
+    "{{ %(m)s.jn(%(list)s) if %(m)s.jn is defined }}", "{{ %(m)s.peek() if %(m)s.peek is defined }}",
+    "{{ (%(m)s.cfg|default({})).a|default('-') }}{{ %(m)s.LS|default('-') }}{{ %(m)s.total|default('-') }}{{ %(m)s.rows|default('-') }}",
+    "{%% set c = ((%(m)s.cfg|default({})).a|default([]))|list %%}{%% do c.append(9) %%}{{ c }}{{ (%(m)s.cfg|default({})).a|default('-') }}",
     "<{{ %(m)s }}>",
 ]
 
@@ -719,13 +724,15 @@ def _strategy(sizes):
 
     def fill(draw, pattern):
         out, pos = [], 0
-        for m in re.finditer(r"%\((list|dict|any|copy|dcopy|same)\)s", pattern):
+        for m in re.finditer(r"%\((list|seq|dict|any|copy|dcopy|same)\)s", pattern):
             out.append(pattern[pos:m.start()].replace("%%", "%"))
             k = m.group(1)
             if k == "same":
                 out.append(out[-2])  # the variable drawn for the previous placeholder
             elif k == "list":
                 out.append(draw(st.sampled_from(LISTS)))
+            elif k == "seq":
+                out.append(draw(st.sampled_from(SEQS)))
             elif k == "dict":
                 out.append(draw(st.sampled_from(DICTS)))
             elif k == "any":
@@ -765,8 +772,8 @@ def _strategy(sizes):
     def user_frags(draw, libs, n):
         frags = []
         for _ in range(n):
-            k = draw(st.sampled_from(["typed", "typed", "typed", "import", "import", "from", "include", "loopimport", "macroimport"]
-                                     if libs else ["typed"]))
+            k = draw(st.sampled_from(["typed", "typed", "typed", "typed", "typed", "typed", "import", "import", "from", "include",
+                                      "loopimport", "macroimport"] if libs else ["typed"]))
             if k == "typed":
                 frags.append(typed_frag(draw))
                 continue
@@ -806,7 +813,7 @@ def _strategy(sizes):
             templates = {n: lib_template(draw) for n in libs}
             users = []
             for i in range(draw(st.integers(1, 3 if nlibs else 2))):
-                templates["u%d" % i] = user_frags(draw, libs, draw(st.integers(1, nfrag)))
+                templates["u%d" % i] = user_frags(draw, libs, draw(st.integers(2, nfrag)))
                 users.append("u%d" % i)
             for i in range(draw(st.integers(0, 2))):
                 templates["w%d" % i] = [wild_frag(draw)]
@@ -814,7 +821,7 @@ def _strategy(sizes):
             case["templates"] = templates
             rendered = users + [l for l in libs if draw(st.integers(0, 2)) == 0]
             for n in users:
-                if draw(st.integers(0, 2)) == 0:
+                if draw(st.booleans()):
                     case["tglobals"][n] = draw(tglob_s)
         elif kind == "stmt":
             progs = {"p0": draw(G.programs(max_depth=pdepth, max_nodes=pnodes, errors=draw(st.integers(0, 2)) == 0))}
@@ -865,7 +872,7 @@ def shards(tier):
 
 def run_shard(spec, ctx):
     n = ctx.pick(300, 4500)
-    strat = _strategy(ctx.pick((4, 3, 14, 3), (6, 4, 30, 4)))
+    strat = _strategy(ctx.pick((7, 3, 14, 3), (10, 4, 30, 4)))
     rec = core.Rec()
     for k in THREAD_STATS:
         THREAD_STATS[k] = 0
